@@ -144,6 +144,7 @@ structure RouteParse where
   raw    : Bytes := []
   noroot : Bool := false
   soft   : Bool := false
+  prebuf : Bool := false                      -- the request was in the transport's buffer when the server took the connection
 
 def parseRouteToks (toks : List String) : RouteParse :=
   toks.foldl (fun r t =>
@@ -155,6 +156,7 @@ def parseRouteToks (toks : List String) : RouteParse :=
     | ["noroot"] => { r with noroot := true }
     | ["unsetlate"] => { r with noroot := true }     -- the handler in force at headersParsed time decides
     | ["soft"] => { r with soft := true }             -- refusing middleware write their own response and do not close
+    | ["prebuf"] => { r with prebuf := true }
     | _ => r) {}
 
 instance : Inhabited Node := ⟨Node.mk 0 [] [] Subs.nil false⟩
@@ -182,13 +184,22 @@ def evalRoute (p : Pending) (glob : Oracle) (obsToks : List String) : String :=
   let p16 := (ora.misc.findSome? fun f => match f with | ["p16", x] => some (unhex16 x) | _ => none).getD []
   let sc : RouteScn := { root := root, matcher := matcherOf ora, raw := r.raw, p16 := p16 }
   let env := ora.env
-  let mlog := (Scenario.run env (if r.soft then sc.softScenario else sc.scenario)).log
+  -- `prebuf`: the same request, already buffered when `ServerPrivate::process` runs (a schedule of the correspondence runs;
+  -- the route theorems are stated for the request arriving afterwards)
+  let scn : Scenario := if r.prebuf then { app := sc.app, events := [.prebuf sc.stream, .new, .turn] }
+                        else if r.soft then sc.softScenario else sc.scenario
+  let mlog := (Scenario.run env scn).log
   let ilog := (obsToks.filter (· != "end")).filterMap parseObs
   let badTok := obsToks.filter (fun t => t != "end" && (parseObs t).isNone)
   let keepR (o : Obs) : Bool := match o with | .del => false | .dc => false | .hp => false | _ => true
   let pm := mergeW (mlog.filter keepR)
   let pi := mergeW (ilog.filter keepR)
-  let hold (l : List Obs) : Bool := if p.prop == "C06" then C06.holds env sc l else if p.prop == "C11" then C11.holds l else C05.holds env sc l
+  -- C04 through the Server's glue: for a head the library rejects, no middleware and no handler is ever asked
+  let rejected := match C01.headOf sc.stream with | some h => (C01.expect env h).isNone | none => true
+  let untouched (l : List Obs) : Bool := !l.any fun o => match o with | .mw _ _ => true | .rt _ _ => true | .pr _ _ => true | _ => false
+  let hold (l : List Obs) : Bool :=
+    if p.prop == "C04" then (!rejected || untouched l)
+    else if p.prop == "C06" then C06.holds env sc l else if p.prop == "C11" then C11.holds l else C05.holds env sc l
   let eq := pm == pi
   let hm := hold mlog
   let hi := hold ilog
